@@ -73,7 +73,13 @@ var jsonByNameExempt = map[string]string{}
 
 // Leniencies of the library's decoder that lie outside the three refusal classes the property
 // names; the differential oracle tolerates exactly these (see evidence "leniencies").
-var lenient = refssz.Lenient{}
+var lenient = refssz.Lenient{BitvectorPadding: true}
+
+// Containers whose Go struct has no json tags: the library's JSON keys are the Go field names.
+// The by-name comparison maps them explicitly, so field identity is still checked.
+var jsonUntagged = map[string]map[string]string{
+	"HistoricalSummary": {"block_summary_root": "BlockSummaryRoot", "state_summary_root": "StateSummaryRoot"},
+}
 
 // ---------------------------------------------------------------- library calls under recover
 
@@ -204,8 +210,13 @@ func cmpJSON(t *refssz.Type, lib, ref any, path string) string {
 			return fmt.Sprintf("%s: expected object, got %T", path, lib)
 		}
 		rm := ref.(map[string]any)
+		alias := jsonUntagged[t.Name]
 		for _, f := range t.Fields {
-			lv, ok := lm[f.Name]
+			key := f.Name
+			if a, ok := alias[f.Name]; ok {
+				key = a
+			}
+			lv, ok := lm[key]
 			if !ok {
 				keys := make([]string, 0, len(lm))
 				for k := range lm {
@@ -220,7 +231,7 @@ func cmpJSON(t *refssz.Type, lib, ref any, path string) string {
 		}
 		if len(lm) != len(t.Fields) {
 			for k := range lm {
-				if t.FieldIndex(k) < 0 {
+				if t.FieldIndex(k) < 0 && alias == nil {
 					return fmt.Sprintf("%s: extra key %q in the library's JSON", path, k)
 				}
 			}
